@@ -382,7 +382,8 @@ class PinBelongsToFile(Stream):
 
     def generate(self, rng):
         return {"fragment": rng.choice([True, True, "md5", False]), "pre": rng.choice(["nothing", "same", "other-build", "other-build"]),
-                "dep_served": rng.choice(["dep-a", "dep-b>=1"]), "dep_other": rng.choice(["dep-x", "dep-y<2"])}
+                "dep_served": rng.choice(["dep-a", "dep-b>=1"]), "dep_other": rng.choice(["dep-x", "dep-y<2"]),
+                "redirected": rng.random() < 0.35}
 
     def impl(self, case):
         import hashlib
@@ -398,7 +399,8 @@ class PinBelongsToFile(Stream):
         fn = B.wheel_name("foo", "1.0")
         served = B.wheel_bytes("foo", "1.0", requires=[case["dep_served"]])
         other = B.wheel_bytes("foo", "1.0", requires=[case["dep_other"]], body="# another build\n")
-        idx = B.FakeIndex("http://idx.example/simple", {"foo": {fn: served}}, with_hash=case["fragment"])
+        idx = B.FakeIndex("http://idx.example/simple", {"foo": {fn: served}}, with_hash=case["fragment"],
+                          served_at="http://mirror.example/root/pypi/simple" if case.get("redirected") else None)
         if case["pre"] != "nothing":
             with open(os.path.join(wheeldir, fn), "wb") as f:
                 f.write(served if case["pre"] == "same" else other)
@@ -420,7 +422,8 @@ class PinBelongsToFile(Stream):
         return out
 
     def flags(self, case, r):
-        return ["fragment:%s" % case["fragment"], "pre:" + case["pre"]] + (["error"] if "error" in r else [])
+        return ["fragment:%s" % case["fragment"], "pre:" + case["pre"]] + (["error"] if "error" in r else []) + \
+            (["project-page-redirected"] if case.get("redirected") else [])
 
     def oracle(self, case, r):
         from rv import graphlib as GL
@@ -430,6 +433,9 @@ class PinBelongsToFile(Stream):
         want = sorted([str(GL.P(case["dep_served"]))])
         if r["reqs"] != want:
             fails.append(("C14/metadata-read-from-another-file-than-the-link", {"link": r["link"], "requirements_of_the_linked_file": want, "reported": r["reqs"]}))
+        page = ("http://mirror.example/root/pypi/simple" if case.get("redirected") else "http://idx.example/simple") + "/foo/"
+        if r["link"] and r["link"][0] != page:
+            fails.append(("C14/link-is-not-relative-to-the-page-it-came-from", {"link": r["link"], "page": page}))
         if r["hash"]:
             algo, _, hexd = r["hash"].partition(":")
             ok = (algo == "sha256" and hexd == r["served_sha256"]) or (algo == "md5" and hexd == r["served_md5"])
